@@ -47,6 +47,8 @@ pub const MIRRORS: &[(&[&str], &str, &str, &str)] = &[
     (&["C17", "C08"], "lexer/util.rs", "until_next_unindented", "Lexer.Context.untilNextUnindented"),
     (&["C08", "C07"], "validator/linking/mod.rs", "link_with_type", "Link.Chase (the supertypes visited list); Link.Values.link (the composite arms)"),
     // values
+    (&["C07", "C15"], "lexer/character_string.rs", "cstring", "Lexer.Values.unescape followed by Lexer.Lines.joinLines"),
+    (&["C07", "C15"], "lexer/character_string.rs", "join_lines", "Lexer.Lines.joinLines"),
     (&["C07"], "lexer/bit_string.rs", "bit_string_value", "Lexer.Values"),
     (&["C07"], "validator/linking/utils.rs", "bit_string_to_octet_string", "Lexer.Values"),
     (&["C07"], "validator/linking/utils.rs", "octet_string_to_bit_string", "Lexer.Values"),
